@@ -24,11 +24,16 @@ def pin_hashseed() -> None:
         os.execv(sys.executable, [sys.executable, "-m", "vmc.runner", *sys.argv[1:]])
 
 
-def boot() -> None:
+def preboot() -> None:
+    """everything that must happen before the first `import pipefunc` (called when the vmc package is imported)"""
     os.environ.setdefault(GUARD, "1")
     sys.modules.setdefault("zarr", None)  # type: ignore[arg-type]
     if REPO not in sys.path:
         sys.path.insert(0, REPO)
+
+
+def boot() -> None:
+    preboot()
     import pipefunc  # noqa: F401
     import pipefunc.map  # noqa: F401
 
